@@ -20,7 +20,7 @@ from vlib.core import Stage, fail
 ID = "C12"
 MANIFEST = {
     "category": "exploration",
-    "text": "Schedule exploration by generated-input search: (single) AHB expressions with several modal-mark parts, repeated keys, hints, format constraints and packages occurring several times x content evaluation results x a schedule (list of yield counts consumed call by call by the harness's async RcEvaluator / FcEvaluator methods, HintsProvider and PackageResolver; every third rc method is a plain function). The results of evaluate_ahb_expression_tree (incl. package expansion), requirement_constraint_evaluation and format_constraint_evaluation under the schedule must equal the results under the all-zero schedule and the reference evaluator's selection/outcome; the expanded tree must equal the zero-schedule tree. (concurrent) 2-5 jobs - AHB evaluations and is_valid_expression calls - run as concurrent tasks with yielding ContentEvaluationResult-based evaluators - or a method-based RcEvaluator whose evaluate_<key> coroutines derive their answer from the evaluatable data they are handed - that read the job's own result from a ContextVar; every job must equal its run alone. For is_valid_expression jobs on expressions with 1-3 requirement constraints the harness records which evaluatable data the evaluations of the call were served: exactly the 3^m possible states, each evaluation its own. A third of the concurrent cases use a HintsProvider whose get_hint_text is a plain function reading the job's context-local data. Half of the is_valid_expression jobs go on to evaluate their expression in the same task; the outcome is judged by the reference and compared between the solo and the concurrent run. Stage failures: one requirement constraint method raises after its pauses and a hint text is missing; the error that reaches the caller must be the one of the zero schedule.",
+    "text": "Schedule exploration by generated-input search: (single) AHB expressions with several modal-mark parts, repeated keys, hints, format constraints and packages occurring several times x content evaluation results x a schedule (list of yield counts consumed call by call by the harness's async RcEvaluator / FcEvaluator methods, HintsProvider and PackageResolver; every third rc method is a plain function). The results of evaluate_ahb_expression_tree (incl. package expansion), requirement_constraint_evaluation and format_constraint_evaluation under the schedule must equal the results under the all-zero schedule and the reference evaluator's selection/outcome; the expanded tree must equal the zero-schedule tree. (concurrent) 2-5 jobs - AHB evaluations and is_valid_expression calls - run as concurrent tasks with yielding ContentEvaluationResult-based evaluators - or a method-based RcEvaluator whose evaluate_<key> coroutines derive their answer from the evaluatable data they are handed - that read the job's own result from a ContextVar; every job must equal its run alone. For is_valid_expression jobs on expressions with 1-3 requirement constraints the harness records which evaluatable data the evaluations of the call were served: exactly the 3^m possible states, each evaluation its own. A third of the concurrent cases use a HintsProvider whose get_hint_text is a plain function reading the job's context-local data. Half of the is_valid_expression jobs go on to evaluate their expression in the same task; the outcome is judged by the reference and compared between the solo and the concurrent run. Stage failures: one requirement constraint method raises after its pauses and a hint text is missing; the error that reaches the caller must be the one of the zero schedule. The single stage also calls RcEvaluator.evaluate_conditions directly with evaluation contexts for half of the keys: every key must get its value, a key with a context must be evaluated in that context, the others in the default one.",
     "note": "Trusted: the schedule harness (vlib/sched.py), the reference evaluator, attrs equality of result objects. Delays enumerate completion orders among already started awaitables of one single-threaded event loop; threads are out of scope. Process configuration by shard (vlib/sut.py; recorded in replay files): plain / parse caches preheated beyond their size / warnings attributed to ahbicht raised as errors / logging fully enabled with every record rendered; one event loop per process or a new one per call; five process time zones; the hash seed is the shard number; namesakes of ahbicht's marshmallow schema classes are registered.",
     "technique": "property-based schedule exploration (harness-controlled yield counts) with differential (zero schedule) and reference oracles",
 }
@@ -93,6 +93,25 @@ def check_single(case):
         fail("reference", f"{case['s']!r}: fulfilled = "
              f"{result.requirement_constraint_evaluation_result.requirement_constraints_fulfilled!r}, reference says {expected_fulfilled!r}")  # fmt: skip
     swapped = [(a, b) for a, b in schedule.reordered_pairs() if a[0] == b[0] and a[2] != b[2]]
+    # RcEvaluator.evaluate_conditions directly, with evaluation contexts for some of the keys: every key gets its value,
+    # a key with a context is evaluated in that context, the others in the default context - under the schedule
+    from ahbicht.content_evaluation.evaluationdatatypes import EvaluationContext
+
+    providers = sched.make_providers(sched.Schedule(case["delays"]), rc=case["cer"]["rc"])
+    sut.configure(providers)
+    keys = sorted(case["cer"]["rc"])
+    given = {key: EvaluationContext(scope=f"$.given.{key}") for key in keys[::2]}
+    res = sut.call(providers[0].evaluate_conditions, keys, sut.evaluatable_data(), given)
+    if not res.ok:
+        fail("contexts", f"evaluate_conditions({keys}, contexts for {sorted(given)}) under schedule {case['delays']} raised {res!r}")
+    expected_values = {key: sut.cfv(case["cer"]["rc"][key]) for key in keys}
+    if res.value != expected_values:
+        fail("contexts", f"evaluate_conditions({keys}, contexts for {sorted(given)}) = {res.value}, expected {expected_values}")
+    for key in set(keys):
+        wanted = f"$.given.{key}" if key in given else None
+        if providers[0].seen_scopes.get(key) != wanted:
+            fail("contexts", f"evaluate_conditions: the method of [{key}] was handed a context with scope "
+                 f"{providers[0].seen_scopes.get(key)!r}, expected {wanted!r} (contexts were given for {sorted(given)})")  # fmt: skip
     return {"swapped": len(swapped), "calls": schedule.calls, "max_active": schedule.max_active}
 
 
